@@ -103,32 +103,31 @@ func (e *Exec) builtinAppend(fr *frame, st *State, c *ssa.CallCommon, s, t Val, 
 	sl := c.Args[0].Type().Underlying().(*types.Slice)
 	el := sl.Elem()
 	h := e.elemHeap(el)
-	var tlen, tAt func(j string) string
-	_ = tlen
+	ht := e.heapTerm(st, h)
+	var tAt func(j string) string
 	var k string
-	if _, isStr := c.Args[1].Type().Underlying().(*types.Basic); isStr {
+	isStr := false
+	if _, ok := c.Args[1].Type().Underlying().(*types.Basic); ok {
 		// append([]byte, string...)
+		isStr = true
 		k = app("slen", t.T)
 		tAt = func(j string) string { return app("sat", t.T, j) }
 	} else {
 		k = slLen(t.T)
-		tAt = func(j string) string {
-			return sel(sel(e.heapTerm(st, h), slRef(t.T)), add(slOff(t.T), j))
-		}
+		tAt = func(j string) string { return e.elemAt(ht, el, t.T, j) }
 	}
-	n := add(slLen(s.T), k)
-	fits := and(le(n, slCap(s.T)), not(eq(slRef(s.T), "0")))
 	if cl, ok := constLen(t.T); ok && cl == 0 {
 		return s
 	}
-	// no-op append of an empty slice keeps s
+	n := add(slLen(s.T), k)
+	fits := and(le(n, slCap(s.T)), not(eq(slRef(s.T), "0")))
 	nr := e.alloc(st)
-	ref := e.ctx.fresh("appref", sInt)
-	off := e.ctx.fresh("appoff", sInt)
-	cp := e.ctx.fresh("appcap", sInt)
+	res := e.ctx.fresh("appended", sSlice)
+	cp := slCap(res)
 	e.ctx.assume(imp(st.pc, and(
-		eq(ref, ite(fits, slRef(s.T), nr)),
-		eq(off, ite(fits, slOff(s.T), "0")),
+		eq(slRef(res), ite(fits, slRef(s.T), nr)),
+		eq(slOff(res), ite(fits, slOff(s.T), "0")),
+		eq(slLen(res), n),
 		imp(fits, eq(cp, slCap(s.T))),
 		imp(not(fits), and(le(n, cp), lt(cp, "281474976710656"))))))
 	// in-place case writes the caller-visible backing array
@@ -137,25 +136,33 @@ func (e *Exec) builtinAppend(fr *frame, st *State, c *ssa.CallCommon, s, t Val, 
 		s2.pc = and(st.pc, fits, lt("0", k))
 		e.frameCheck(fr, s2, h, slRef(s.T), pos)
 	}
-	ht := e.heapTerm(st, h)
 	olds := sel(ht, slRef(s.T))
 	arr := e.ctx.fresh("apparr", arraySort(sInt, e.ctx.sortOf(el)))
+	e.setHeap(st, h, sto(ht, slRef(res), arr))
+	nht := e.heapTerm(st, h)
 	// old contents of s
-	e.ctx.assume(imp(st.pc, fmt.Sprintf("(forall ((i Int)) (! (=> (and (<= 0 i) (< i %s)) (= (select %s (+ %s i)) (select %s (+ %s i)))) :pattern ((select %s (+ %s i)))))",
-		slLen(s.T), arr, off, olds, slOff(s.T), arr, off)))
+	e.ctx.assume(imp(st.pc, fmt.Sprintf("(forall ((i Int)) (! (=> (and (<= 0 i) (< i %s)) (= %s %s)) :pattern (%s) :pattern (%s)))",
+		slLen(s.T), e.elemAt(nht, el, res, "i"), e.elemAt(ht, el, s.T, "i"), e.elemAt(nht, el, res, "i"), e.elemAt(ht, el, s.T, "i"))))
 	if cl, ok := constLen(t.T); ok && cl <= 4 {
 		for j := 0; j < cl; j++ {
-			e.ctx.assume(imp(st.pc, eq(sel(arr, add(off, add(slLen(s.T), num(int64(j))))), tAt(num(int64(j))))))
+			e.ctx.assume(imp(st.pc, eq(e.elemAt(nht, el, res, add(slLen(s.T), num(int64(j)))), tAt(num(int64(j))))))
 		}
 	} else {
-		e.ctx.assume(imp(st.pc, fmt.Sprintf("(forall ((j Int)) (! (=> (and (<= 0 j) (< j %s)) (= (select %s (+ %s (+ %s j))) %s)) :pattern ((select %s (+ %s (+ %s j))))))",
-			k, arr, off, slLen(s.T), tAt("j"), arr, off, slLen(s.T))))
+		pat := ""
+		if !isStr {
+			pat = " :pattern (" + tAt("(- i "+slLen(s.T)+")") + ")"
+		}
+		e.ctx.assume(imp(st.pc, fmt.Sprintf("(forall ((i Int)) (! (=> (and (<= %s i) (< i %s)) (= %s %s)) :pattern (%s)%s))",
+			slLen(s.T), n, e.elemAt(nht, el, res, "i"), tAt("(- i "+slLen(s.T)+")"), e.elemAt(nht, el, res, "i"), pat)))
+		if !isStr {
+			e.ctx.assume(imp(st.pc, fmt.Sprintf("(forall ((j Int)) (! (=> (and (<= 0 j) (< j %s)) (= %s %s)) :pattern (%s)))",
+				k, e.elemAt(nht, el, res, "(+ "+slLen(s.T)+" j)"), tAt("j"), tAt("j"))))
+		}
 	}
 	// in place: indices outside the appended window keep their contents
 	e.ctx.assume(imp(and(st.pc, fits), fmt.Sprintf("(forall ((i Int)) (! (=> (or (< i (+ %s %s)) (>= i (+ %s %s))) (= (select %s i) (select %s i))) :pattern ((select %s i))))",
 		slOff(s.T), slLen(s.T), slOff(s.T), n, arr, olds, arr)))
-	e.setHeap(st, h, sto(ht, ref, arr))
-	return Val{T: mkSlice(ref, off, n, cp), S: sSlice}
+	return Val{T: res, S: sSlice}
 }
 
 func (e *Exec) builtinCopy(fr *frame, st *State, c *ssa.CallCommon, dst, src Val, pos token.Pos) Val {
@@ -165,12 +172,14 @@ func (e *Exec) builtinCopy(fr *frame, st *State, c *ssa.CallCommon, dst, src Val
 	var k string
 	var sAt func(j string) string
 	ht := e.heapTerm(st, h)
-	if _, isStr := c.Args[1].Type().Underlying().(*types.Basic); isStr {
+	isStr := false
+	if _, ok := c.Args[1].Type().Underlying().(*types.Basic); ok {
+		isStr = true
 		k = app("slen", src.T)
 		sAt = func(j string) string { return app("sat", src.T, j) }
 	} else {
 		k = slLen(src.T)
-		sAt = func(j string) string { return sel(sel(ht, slRef(src.T)), add(slOff(src.T), j)) }
+		sAt = func(j string) string { return e.elemAt(ht, el, src.T, j) }
 	}
 	n := e.ctx.fresh("ncopy", sInt)
 	e.ctx.assume(imp(st.pc, eq(n, ite(le(slLen(dst.T), k), slLen(dst.T), k))))
@@ -181,10 +190,15 @@ func (e *Exec) builtinCopy(fr *frame, st *State, c *ssa.CallCommon, dst, src Val
 	}
 	olds := sel(ht, slRef(dst.T))
 	arr := e.ctx.fresh("cparr", arraySort(sInt, e.ctx.sortOf(el)))
-	e.ctx.assume(imp(st.pc, fmt.Sprintf("(forall ((j Int)) (! (=> (and (<= 0 j) (< j %s)) (= (select %s (+ %s j)) %s)) :pattern ((select %s (+ %s j)))))",
-		n, arr, slOff(dst.T), sAt("j"), arr, slOff(dst.T))))
+	e.setHeap(st, h, ite(lt("0", n), sto(ht, slRef(dst.T), arr), ht))
+	nht := e.heapTerm(st, h)
+	pat := ""
+	if !isStr {
+		pat = " :pattern (" + sAt("j") + ")"
+	}
+	e.ctx.assume(imp(st.pc, fmt.Sprintf("(forall ((j Int)) (! (=> (and (<= 0 j) (< j %s)) (= %s %s)) :pattern (%s)%s))",
+		n, e.elemAt(nht, el, dst.T, "j"), sAt("j"), e.elemAt(nht, el, dst.T, "j"), pat)))
 	e.ctx.assume(imp(st.pc, fmt.Sprintf("(forall ((i Int)) (! (=> (or (< i %s) (>= i (+ %s %s))) (= (select %s i) (select %s i))) :pattern ((select %s i))))",
 		slOff(dst.T), slOff(dst.T), n, arr, olds, arr)))
-	e.setHeap(st, h, ite(lt("0", n), sto(ht, slRef(dst.T), arr), ht))
 	return Val{T: n, S: sInt}
 }
